@@ -133,7 +133,7 @@ def run(rep, ix, tier):
     rep.floor('R-C01-SUL', 6)
     rep.floor('R-C01-ATTR', 9)
     rep.floor('R-C01-LEN', 8)
-    rep.floor('R-C01-ENVELOPE', 8)
+    rep.floor('R-C01-ENVELOPE', 14)
     rep.floor('R-C01-PAD', 5)
     rep.floor('R-C01-WALK', 8)
 
@@ -285,6 +285,12 @@ def check_envelope(rep, ix, pm):
         n = 0
         for test, negated, node in common.reject_guards(f):
             lg = _linear(ix, cls, test, negated)
+            if lg is None or not any(key in table for key, _, _ in lg):
+                # a guard written over an extracted local: look through the local
+                from .. import defuse
+                lg2 = _linear(ix, cls, defuse.inline_locals(f, test, depth=3), negated)
+                if lg2 is not None and any(key in table for key, _, _ in lg2):
+                    lg = lg2
             if lg is None:
                 continue
             for key, optype, c in lg:
